@@ -27,7 +27,7 @@ func (propC16) Rule() string {
 func (propC16) Assumptions() []string {
 	return []string{"encoding/binary.LittleEndian is the reference for little-endian byte order"}
 }
-func (propC16) MinEvents(string) []string { return []string{"values"} }
+func (propC16) MinEvents(string) []string   { return []string{"values"} }
 func (propC16) Exhaustive(tier string) bool { return tier == "thorough" }
 
 func c16CheckValue(v uint32) string {
